@@ -758,7 +758,9 @@ pub fn run_c13(seed: u64, n: usize, out: &mut Out) {
 // ---------------------------------------------------------------- C14
 
 const KEYS: &[&str] = &["a", "b", "c", "a::b", "::a", "r#a", "b::c", "a::<u8>", "a :: b", "d"];
-const MAP_VALUES: &[&str] = &[" = true", " = 5", " = \"s\"", "", "(x = 1)", " = 1 + 2", " = 300", " = \"true\"", "(y = 5, z = 300)", " = false"];
+const MAP_VALUES: &[&str] = &[" = true", " = 5", " = \"s\"", "", "(x = 1)", " = 1 + 2", " = 300", " = \"true\"", "(y = 5, z = 300)", " = false",
+    // nested maps whose inner key repeats an outer key (the location path then repeats a segment)
+    "(a = 300)", "(a = \"big\", b = 1)", "(a(a = 300))", "(b = true, b = 5)"];
 
 pub fn run_c14(seed: u64, n: usize, out: &mut Out) {
     let base = Rng::new(seed ^ 0xC14);
